@@ -9,6 +9,11 @@ LEQ == {<<"set", k, <<>>>> : k \in 0..3} \cup {<<"set", 1, U1>>} \cup {<<"clr", 
        \cup {<<"rdhist", 1>>, <<"wrhist", 0>>, <<"wrhist", 1>>, <<"wrid", TRUE>>, <<"wrid", FALSE>>, <<"mode", 2>>, <<"mode", 4>>}
 LE20 == {<<"set", k, <<>>>> : k \in 0..3} \cup {<<"clr", 1>>, <<"nmtreset", 130>>, <<"nmtreset", 129>>, <<"mode", 3>>, <<"mode", 4>>, <<"wrid", FALSE>>, <<"wrid", TRUE>>}
 PE20 == << <<"nmtreset", 130>>, <<"rdreg">>, <<"cnt">>, <<"get", 0>>, <<"get", 1>>, <<"get", 2>>, <<"get", 3>>, <<"set", 1, <<>>>>, <<"rdreg">>, <<"cnt">> >>
+\* errors with identifiers above the number of error classes (8): a table of 12, letters on the identifiers 1, 8, 9 and 11
+T12 == << <<0, 4096>>, <<1, 8192>>, <<1, 8448>>, <<2, 12288>>, <<3, 16384>>, <<4, 20480>>, <<5, 24576>>, <<7, 65280>>, <<1, 8704>>, <<2, 12544>>, <<4, 20736>>, <<0, 4352>> >>
+LEH == {<<"set", k, <<>>>> : k \in {1, 8, 9, 11}} \cup {<<"clr", k>> : k \in {1, 8, 9, 11}} \cup {<<"reset", TRUE>>, <<"reset", FALSE>>, <<"nmtreset", 130>>, <<"cnt">>, <<"rdreg">>, <<"mode", 4>>, <<"mode", 2>>}
+PEH == << <<"rdreg">>, <<"cnt">>, <<"get", 1>>, <<"get", 8>>, <<"get", 9>>, <<"get", 11>>, <<"set", 9, <<>>>>, <<"set", 11, <<>>>>, <<"reset", FALSE>>, <<"rdreg">>, <<"cnt">>, <<"get", 9>>, <<"set", 9, <<>>>>,
+          <<"nmtreset", 130>>, <<"cnt">>, <<"rdreg">>, <<"set", 11, <<>>>>, <<"rdhist", 1>> >>
 PE == << <<"rdreg">>, <<"cnt">>, <<"get", 0>>, <<"get", 1>>, <<"get", 2>>, <<"get", 3>>, <<"mode", 2>>, <<"rdhist", 0>>, <<"rdhist", 1>>, <<"rdhist", 2>>,
          <<"set", 2, <<>>>>, <<"rdhist", 1>>, <<"clr", 2>>, <<"reset", FALSE>>, <<"rdreg">>, <<"cnt">> >>
 ===============================================================================
